@@ -60,6 +60,11 @@ PAYLOADS = [
     "'{0.__class__}'.format(1)", "'{0.__class__.__mro__}'.format(1)", "'{0.__hash__}'.format(0)", "'{.real.__class__}'.format(1)", "'{a.__class__}'.format(a=1)",
     "'{0[0].__doc__}'.format(['x'])", "'{}-{}'.format(1, 2)", "'{0.__init__.__globals__}'.format(led)", "'%(a)s' % {'a': 1}", "'{!r}'.format(open)", "str.format('{0.__class__}', 1)",
     "format(1, '>5')", "'{:>{w}}'.format(1, w=5)", "(1).__class__", "(1).__class__.__name__", "''.join.__self__.__class__", "type(1)", "repr(len)", "str(print)", "f'{len}'", "f'{(1).__class__}'",
+    "pow(7, 7 ** 9)", "pow(2, 10)", "pow(2, 0.5)", "pow(10, 10 ** 7)", "round(1e308)", "round(2.5)", "round(2.567, 1)", "abs(-10 ** 400)", "int(10 ** 400)", "float(10 ** 400)",
+    "divmod(7, 0)", "min(1, 2, key=len)", "sum([1, 2])", "max(range(10 ** 9))", "len(range(10 ** 12))", "list(range(10 ** 9))", "sorted([3, 1])", "hex(255)", "chr(65)", "ord('A')",
+    "[31.0, 0, 0, 0, 0, 0, 0, 0]", "[62 / 2, 0, 0, 0, 0, 0, 0, 0]", "[float(4), 1, 2, 3, 4, 5, 6, 7]", "[1, 2, 3, 4, 5, 6, 7, 8.5]", "[True, False, 1, 0, 1, 0, 1, 0]", "[1e400, 0, 0, 0, 0, 0, 0, 0]",
+    "[-1, 256, 0, 0, 0, 0, 0, 0]", "['1', 0, 0, 0, 0, 0, 0, 0]", "[[1], 0, 0, 0, 0, 0, 0, 0]", "[None] * 8", "[1, 2, 3]", "(1, 2, 3, 4, 5, 6, 7, 8)", "[1.5, 2.5]", "[0.0, 1.0, 128.0]",
+    "2.0", "31.0", "1e3", "-0.0", "0x10", "1_0", "01", "1.", ".5", "5.0 // 2", "7 % 2.0", "True + True", "-True", "~5", "not 5", "5 if 0.0 else 6.5",
     "True", "\"A0\"", "A0", "\"HC-SR04\" if 1 else 2", "[1, [2, [3]]]", "(1, 2, 3, 4, 5, 6, 7, 8)", "[0.5] * 8", "\"left\" + \"\"",
 ]
 
